@@ -367,12 +367,20 @@ func parentMain(spec *Spec) int {
 	nb := 1
 	if spec.Batches != nil {
 		nb = spec.Batches(tier)
+	} else if tier == "thorough" {
+		nb = 8 // the thorough tier of a check that does not say otherwise is split over eight children
 	}
 	par := spec.Parallel
 	if par < 1 {
 		par = 1
+		if spec.Batches == nil && tier == "thorough" {
+			par = 8
+		}
 	}
 	timeout := 10 * time.Minute
+	if tier == "thorough" {
+		timeout = 90 * time.Minute
+	}
 	if spec.ChildTimeout != nil {
 		timeout = spec.ChildTimeout(tier)
 	}
